@@ -21,6 +21,7 @@ package compile
 
 import (
 	"fmt"
+	"sort"
 
 	"github.com/sdcio/yang-parser/parse"
 )
@@ -250,13 +251,31 @@ func (c *Compiler) processDeviations(module *parse.Module) {
 	nod := module.GetModule()
 
 	children := nod.ChildrenByType(parse.NodeDeviation)
+	// The deviations written in the submodules of the module belong to
+	// it as well (they are not copied into the module like data
+	// definitions and augments): in name order, for a stable result.
+	subnames := make([]string, 0, len(module.GetSubmodules()))
+	for sn := range module.GetSubmodules() {
+		subnames = append(subnames, sn)
+	}
+	sort.Strings(subnames)
+	for _, sn := range subnames {
+		children = append(children,
+			module.GetSubmodules()[sn].ChildrenByType(parse.NodeDeviation)...)
+	}
 	for _, a := range children {
 		applyToPath := a.ArgSchema()
 		applyToPfx := applyToPath[0].Space
-		applyToMod, err := nod.GetModuleByPrefix(
+		// (the prefix is one of the text in which the deviation is
+		// written; a submodule names its own module by its belongs-to
+		// prefix)
+		applyToMod, err := a.GetModuleByPrefix(
 			applyToPfx, c.modules, c.skipUnknown)
 		if err != nil {
 			c.error(nod, err)
+		}
+		if applyToMod != nil && applyToMod.Type() == parse.NodeSubmodule {
+			applyToMod = nod
 		}
 
 		allowedNodes := getAugmentableNodesForModule(applyToMod)
